@@ -12,7 +12,28 @@ spec -> code: every enumerated page rendered; final HTML parsed with html.parser
               specification's (elems, marks) through the ids echoed by Component.id.
 code -> spec: random programs with elements anywhere; deep chains (thorough: depth 2000
               inside a wrapper element, depth 300 as root) whose expectation is the closed form
-              the specification yields for chains, cross-checked by TLC for small depths.
+              the specification yields for chains, cross-checked by TLC for small depths; the same
+              chains with every level rendering its child inside a {% for %} loop (the loop state
+              `forloop.parentloop` is then as deep as the nesting).
+
+Entry points of a render (configuration space `via`, see the comment at EvalComp in DjcSemantics.tla).
+The specification's render - a component node of the page, identified by its position - does not say
+HOW the render was requested: through the {% component %} tag, or through the Python API
+(`Component.render()` / `render_to_response()` "may be called as class method or as instance method",
+`Component.as_view()` makes ONE instance answer every request).  A page-level component node without a
+body may therefore carry the optional field via in {"fresh", "inst", "resp", "view"}: the harness then renders
+that node through the Python API and puts the returned HTML into the page at the node's position -
+  fresh: a new instance per render;  inst: ONE instance per component class of the page, `instance.render()`
+  for every node (and every loop iteration) of that class;  resp: the same instance, `render_to_response()`;
+  view: `instance.as_view()` once, one test request per render (kwargs travel in the query string).
+The expected page is what the specification says for the SAME program (the field is ignored by Run): every
+render is an instance of its own with its own id, ids pairwise distinct, the roots of render k carry id k
+only.  What the callee sees of the caller: in django mode the caller's Context is handed over as
+`context=` unless the node is flagged `only` - a Python-API render that is handed no context is
+exactly the specification's `only` call (sees nothing of the caller); in isolated mode no context is handed
+over (the documentation says it would not be accessible; that it is, is C03's known finding).
+Left out: nodes inside component bodies / fills (a Python-API render started while another component is being
+rendered joins or does not join its render queue - the property text does not say), bodies given as `slots=`.
 """
 from __future__ import annotations
 
@@ -24,7 +45,7 @@ from typing import Any, Dict, List, Optional, Tuple
 
 from . import djc, prog as P, tlc
 from .core import Check, MachineryError
-from .pool import pmap
+from .pool import guarded, pmap
 
 PID = "C14"
 
@@ -45,13 +66,132 @@ class _Elems(HTMLParser):
         self.elems.append((e, ids))
 
 
+# ------------------------------------------------------------------ Python-API entry points (`via`)
+API_DRIVERS = ("inst", "resp", "view", "fresh")
+_API: Dict[str, Any] = {}
+_SCRIPT_RE = re.compile(r"<script\b.*?</script>|<link\b[^>]*>|<style\b.*?</style>", re.S)
+
+
+def api_nodes(nodes: List[Dict[str, Any]]) -> List[Dict[str, Any]]:
+    """Component nodes a caller can render through the Python API and paste into the page: no body, lexically
+    at page level (under text / if / for / with / elements, never inside a component body)."""
+    out = []
+    for n in nodes:
+        if n["t"] == "comp":
+            if n["body"] == "none":
+                out.append(n)
+        else:
+            for key in ("a", "b"):
+                if isinstance(n.get(key), list):
+                    out += api_nodes(n[key])
+    return out
+
+
+def api_variant(prog: Dict[str, Any], pid: int, rnd: random.Random, drivers=API_DRIVERS, bare: float = 0.3) -> Dict[str, Any]:
+    """The same program with every eligible node rendered through a Python-API entry point (drawn per node);
+    in django mode some nodes are rendered without a context (= the specification's `only`)."""
+    q = json.loads(json.dumps(prog))
+    q["id"] = pid
+    for n in api_nodes(q["page"]):
+        n["via"] = rnd.choice(drivers)
+        if q["mode"] == "django" and rnd.random() < bare:
+            n["only"] = True
+    return q
+
+
+def has_via(prog) -> bool:
+    return any(n.get("via") for n in api_nodes(prog["page"]))
+
+
+def _api_lib():
+    from django.template.library import Library
+    from django.utils.safestring import mark_safe
+    lib = Library()
+
+    @lib.simple_tag(takes_context=True)
+    def vf_api(context, k, **kw):
+        from django.test import RequestFactory
+        st = _API
+        node = st["calls"][k]
+        c, drv = node["c"], node["via"]
+        cls = st["classes"][c - 1]
+        # django mode: the caller hands its Context on (the same layers a {% component %} tag at this place sees)
+        ctx = context if (st["mode"] == "django" and not node["only"]) else None
+        kwargs = dict(kw)
+        if drv == "fresh":
+            return mark_safe(cls(registry=st["reg"]).render(context=ctx, kwargs=kwargs, render_dependencies=False))
+        if c not in st["inst"]:
+            st["inst"][c] = cls(registry=st["reg"])       # ONE instance per class serves every render of the page
+        inst = st["inst"][c]
+        if drv == "inst":
+            html = inst.render(context=ctx, kwargs=kwargs, render_dependencies=False)
+        elif drv == "resp":
+            html = inst.render_to_response(context=ctx, kwargs=kwargs).content.decode()
+        else:
+            if c not in st["views"]:
+                st["views"][c] = inst.as_view()
+            st["ctx"] = ctx
+            html = st["views"][c](RequestFactory().get("/vf", kwargs)).content.decode()
+        return mark_safe(html)
+    return lib
+
+
+def _view_get(self, request):
+    """The GET handler of every generated component (used by the `view` driver only)."""
+    return self.render_to_response(context=_API.get("ctx"), kwargs=dict(request.GET.items()))
+
+
+def _api_page_src(prog) -> Tuple[str, List[Dict[str, Any]]]:
+    """Page source in which every `via` node is a {% vf_api k ... %} tag (the caller pasting the API result)."""
+    calls: List[Dict[str, Any]] = []
+
+    def walk(nodes):
+        out = []
+        for n in nodes:
+            if n["t"] == "comp":
+                if n.get("via"):
+                    calls.append(n)
+                    out.append({"t": "text", "id": "@API%d@" % (len(calls) - 1)})
+                else:
+                    out.append(n)
+            else:
+                m = dict(n)
+                for key in ("a", "b"):
+                    if isinstance(m.get(key), list):
+                        m[key] = walk(m[key])
+                out.append(m)
+        return out
+    src = P.page_src(dict(prog, page=walk(prog["page"])))
+    for k, n in enumerate(calls):
+        src = src.replace("[@API%d@]" % k, "{%% vf_api %d%s %%}" % (k, P._kw_src(n["kw"])))
+    return "{% load vf_c14 %}" + src, calls
+
+
+def _render_api(prog) -> str:
+    from django.template import Context, Template, engines
+    eng = engines["django"].engine
+    if "vf_c14" not in eng.template_libraries:
+        eng.template_libraries["vf_c14"] = _api_lib()
+    reg, _ = P.registry(prog["mode"])
+    classes = P.install(prog, extra={i: {"get": _view_get} for i in range(1, len(prog["comps"]) + 1)})
+    src, calls = _api_page_src(prog)
+    _API.clear()
+    _API.update(calls=calls, classes=classes, reg=reg, mode=prog["mode"], inst={}, views={}, ctx=None)
+    try:
+        return _SCRIPT_RE.sub("", Template(src).render(Context(P.page_context(prog))))
+    finally:
+        _API.clear()
+
+
 def observe(prog) -> Dict[str, Any]:
     """Real render: element occurrences (document order) with their id attributes + token stream."""
     from django.template import Context, Template
     P.reset_library_state()
-    P.install(prog)
+    via = has_via(prog)
+    if not via:
+        P.install(prog)
     try:
-        html = Template(P.page_src(prog)).render(Context(P.page_context(prog)))
+        html = _render_api(prog) if via else Template(P.page_src(prog)).render(Context(P.page_context(prog)))
     except Exception as e:  # noqa: BLE001
         return {"err": type(e).__name__, "msg": str(e)[:300], "out": [], "junk": "", "elems": []}
     finally:
@@ -146,6 +286,10 @@ def compare(p, e, o) -> Optional[Dict[str, Any]]:
 
 def run_batch(chk: Check, progs, exp, label: str) -> Dict[str, int]:
     obs = pmap(observe, progs, workers=12)
+    for k, o in enumerate(obs):
+        if o.get("hang"):      # a stalled (overloaded) machine is not a hang: once more, alone, with a generous budget
+            obs[k] = guarded(observe, progs[k], 120.0)
+            chk.add("watchdog_retries", 1)
     # compare_batch's primary comparison is the C14 one (ids differ between runs, so no raw token equality)
     stats = {"ok": 0, "zone": 0, "bad": 0}
     keep_p, keep_o = [], []
@@ -161,70 +305,180 @@ def run_batch(chk: Check, progs, exp, label: str) -> Dict[str, int]:
     return st
 
 
-def chain_program(depth: int, as_root: bool, mode: str) -> Dict[str, Any]:
+def chain_program(depth: int, as_root: bool, mode: str, loop: bool = False) -> Dict[str, Any]:
     """c_i renders c_{i+1}: inside a wrapper element (as_root=False) or as its own root (as_root=True);
-    the last component has one root element.  Components are c1..c<depth>."""
+    the last component has one root element.  Components are c1..c<depth>.
+    loop: every level renders its child inside {% for i in one %} over a one-element list it received as a
+    keyword argument and hands on (so the chain also loops in isolated mode): components "rendered in loops"
+    at every nesting level - `forloop.parentloop` is then a chain as long as the nesting is deep."""
+    kw = [["one", P.V("one")]] if loop else []
     comps = []
     for i in range(1, depth + 1):
-        inner = {"t": "comp", "c": i + 1, "kw": [], "only": False, "body": "none", "a": []} if i < depth else \
+        inner = {"t": "comp", "c": i + 1, "kw": kw, "only": False, "body": "none", "a": []} if i < depth else \
             {"t": "elem", "id": "leaf", "a": []}
+        if loop and i < depth:
+            inner = {"t": "for", "x": "i", "xs": "one", "a": [inner]}
         tpl = [{"t": "var", "x": "cid"}]
         tpl.append(inner if (as_root or i == depth) else {"t": "elem", "id": f"w{i}", "a": [inner]})
-        comps.append({"data": [P.datadef("cid", "id")], "tpl": tpl, "assets": P.no_assets()})
-    return {"id": depth * 10 + (1 if as_root else 0), "mode": mode, "devs": [], "dyn": False, "pyctx": False,
-            "ctx": [], "comps": comps,
-            "page": [{"t": "comp", "c": 1, "kw": [], "only": False, "body": "none", "a": []}]}
+        data = [P.datadef("cid", "id")] + ([P.datadef("one", "kwarg", a="one")] if loop else [])
+        comps.append({"data": data, "tpl": tpl, "assets": P.no_assets()})
+    return {"id": depth * 10 + (1 if as_root else 0) + (2 if loop else 0), "mode": mode, "devs": [], "dyn": False, "pyctx": False,
+            "ctx": [["one", P.L(["o1"])]] if loop else [], "comps": comps,
+            "page": [{"t": "comp", "c": 1, "kw": kw, "only": False, "body": "none", "a": []}]}
 
 
-def chain_expected(depth: int, as_root: bool) -> Dict[str, Any]:
+def chain_expected(depth: int, as_root: bool, loop: bool = False) -> Dict[str, Any]:
     """Closed form of Run for chain programs (the form TLC's results have for small depths)."""
-    def inst(i):   # instance path of c_i: page node 1, then node 2 of every template (inside the wrapper: child 1)
-        path = [1]
-        for _ in range(1, i):
-            path += [2] if as_root else [2, 1]
+    # instance path of c_i: page node 1, then per level node 2 of the template (inside the wrapper: child 1;
+    # inside a loop: iteration 1, node 1)
+    step = ([2] if as_root else [2, 1]) + ([1, 1] if loop else [])
+
+    def key(path):
         return "<<" + ", ".join(map(str, path)) + ">>"
+
+    def inst(i):
+        return key([1] + step * (i - 1))
     out = [f"cid={inst(i)}" for i in range(1, depth + 1)]
     elems, marks = [], []
+    leaf_occ = key([1] + step * (depth - 1) + [2])
     if as_root:
-        leaf_occ = "<<" + ", ".join(map(str, [1] + [2] * depth)) + ">>"
         elems = [["leaf", leaf_occ]]
         marks = [[leaf_occ, inst(i)] for i in range(depth, 0, -1)]
     else:
         for i in range(1, depth):
-            occ = "<<" + ", ".join(map(str, [1] + [2, 1] * (i - 1) + [2])) + ">>"
+            occ = key([1] + step * (i - 1) + [2])
             elems.append([f"w{i}", occ])
             marks.append([occ, inst(i)])
-        occ = "<<" + ", ".join(map(str, [1] + [2, 1] * (depth - 1) + [2])) + ">>"
-        elems.append(["leaf", occ])
-        marks.append([occ, inst(depth)])
+        elems.append(["leaf", leaf_occ])
+        marks.append([leaf_occ, inst(depth)])
     return {"out": out, "err": "", "errs": [], "zone": False, "insts": [[i, i] for i in range(depth)], "elems": elems,
             "marks": marks}
 
 
-def deep_chains(chk: Check, depths_wrapped: List[int], depths_root: List[int]) -> None:
+def deep_chains(chk: Check, depths_wrapped: List[int], depths_root: List[int], depths_wloop: List[int] = (),
+                depths_rloop: List[int] = ()) -> None:
     # the closed form is checked against TLC for small depths first (binding of the formula to the spec)
-    small = [chain_program(d, r, "django") for d in (1, 2, 3, 5, 8) for r in (False, True)]
+    small = [chain_program(d, r, "django", lp) for d in (1, 2, 3, 5, 8) for r in (False, True) for lp in (False, True)]
+    small += [chain_program(d, r, "isolated", True) for d in (2, 5) for r in (False, True)]
+    cfg = {}
+    for k, p in enumerate(small):
+        cfg[k + 1] = (p["id"] // 10, bool(p["id"] % 10 & 1), bool(p["id"] % 10 & 2))
+        p["id"] = k + 1
     exp = djc.oracle(small)
     for p in small:
-        d, r = p["id"] // 10, bool(p["id"] % 10)
-        e, f = exp[p["id"]], chain_expected(d, r)
+        d, r, lp = cfg[p["id"]]
+        e, f = exp[p["id"]], chain_expected(d, r, lp)
         if (e["out"], e["elems"], sorted(map(tuple, e["marks"]))) != (f["out"], f["elems"], sorted(map(tuple, f["marks"]))):
-            raise MachineryError(f"closed form for chains disagrees with the specification at depth {d} as_root={r}")
-    cases = [(d, False) for d in depths_wrapped] + [(d, True) for d in depths_root]
-    progs = [chain_program(d, r, P.MODES[i % 2]) for i, (d, r) in enumerate(cases)]
-    expd = {p["id"]: dict(chain_expected(d, r), id=p["id"]) for p, (d, r) in zip(progs, cases)}
+            raise MachineryError(f"closed form for chains disagrees with the specification at depth {d} as_root={r} loop={lp} "
+                                 f"mode={p['mode']}")
+    cases = [(d, False, False) for d in depths_wrapped] + [(d, True, False) for d in depths_root] + \
+            [(d, False, True) for d in depths_wloop] + [(d, True, True) for d in depths_rloop]
+    progs = [chain_program(d, r, P.MODES[i % 2], lp) for i, (d, r, lp) in enumerate(cases)]
+    expd = [chain_expected(d, r, lp) for (d, r, lp) in cases]
     obs = pmap(observe, progs, workers=4, per_item_s=300, chunk=1)
-    for p, o, (d, r) in zip(progs, obs, cases):
-        chk.count(["chain", d, r])
-        m = compare(p, expd[p["id"]], o)
+    for p, o, e, (d, r, lp) in zip(progs, obs, expd, cases):
+        chk.count(["chain", d, r, lp, p["mode"]])
+        m = compare(p, e, o)
         if m:
-            chk.violation({"label": "deep-chain", "depth": d, "as_root": r, "mode": p["mode"]}, m)
+            chk.violation({"label": "deep-chain", "depth": d, "as_root": r, "loop": lp, "mode": p["mode"]}, m)
     chk.add("deep_chains", len(cases))
-    chk.cov["max_chain_depth"] = max([d for d, _ in cases] or [0])
+    chk.add("deep_chains_in_loops", len(depths_wloop) + len(depths_rloop))
+    chk.cov["max_chain_depth"] = max([d for d, _, _ in cases] or [0])
 
 
-def body(chk: Check, *, mc_nodes: int, n_random: int, deep: int, chains_w: List[int], chains_r: List[int]) -> None:
+def session_programs(rnd: random.Random, n: int, first_id: int) -> List[Dict[str, Any]]:
+    """Programs whose page is a Python caller's session: 2-3 renders, mostly of the SAME component class (hence of
+    the same kept instance / the same view), some of them per item of a {% for %} loop or inside an element of
+    the page, text in between - all pasted into one page."""
+    g = P.Gen(rnd, ncomps=(1, 3), depth=2, width=3, collide=False, elems=True, required=0.0, isf=False)
+    out = []
+    for i in range(n):
+        p = g.program(first_id + i, P.MODES[i % 2])
+        calls = [g.comp(0, 0, None)]
+        for _ in range(rnd.randint(1, 2)):
+            c = g.comp(0, 0, None)
+            if rnd.random() < 0.7:
+                c["c"] = calls[0]["c"]
+            calls.append(c)
+        page: List[Dict[str, Any]] = []
+        for c in calls:
+            w = rnd.random()
+            if w < 0.3:
+                c["kw"] = [kv for kv in c["kw"] if kv[0] != "x"] + ([["x", P.V("i")]] if rnd.random() < 0.5 else [])
+                page.append({"t": "for", "x": "i", "xs": "xs", "a": [c] + ([g._t()] if rnd.random() < 0.5 else [])})
+            elif w < 0.5:
+                g.eid += 1
+                page.append({"t": "elem", "id": f"e{g.eid}", "a": [c]})
+            else:
+                page.append(c)
+            if rnd.random() < 0.4:
+                page.append(g._t())
+        p["page"] = page
+        out.append(api_variant(p, p["id"], rnd, drivers=("inst", "resp", "view")))
+    return out
+
+
+def _reuses_instance(prog) -> bool:
+    """Does some kept instance / view of the page serve more than one render?"""
+    def walk(nodes, mult):
+        for n in nodes:
+            if n["t"] == "comp":
+                if n["body"] == "none":
+                    seen[n["c"]] = seen.get(n["c"], 0) + mult
+            else:
+                for key in ("a", "b"):
+                    if isinstance(n.get(key), list):
+                        walk(n[key], mult * (2 if n["t"] == "for" else 1))
+    seen: Dict[int, int] = {}
+    walk(prog["page"], 1)
+    return any(v > 1 for v in seen.values())
+
+
+def api_entry_points(chk: Check, mc: List[Tuple[List[Dict[str, Any]], Dict[int, Any]]], progs, exp, *, n_sessions: int,
+                     mc_every: int) -> int:
+    """Renders requested through the Python API (see the module docstring).  Returns TLC states used."""
+    rnd = random.Random(chk.seed * 1000003 + 1414)
+    kept = ("inst", "resp", "view")
+    # (1) TLC-enumerated pages: every page on which a kept instance serves >= 2 renders, every mc_every-th other
+    #     eligible page; the expectation is the exported one (the field `via` does not enter Run)
+    for pages, pexp in mc:
+        sel, sexp = [], {}
+        for k, p in enumerate(pages):
+            if pexp[p["id"]]["zone"] or not api_nodes(p["page"]):
+                continue
+            reuse = _reuses_instance(p)
+            if not reuse and k % mc_every:
+                continue
+            q = api_variant(p, 2 * 10 ** 6 + p["id"], rnd, drivers=kept if reuse else API_DRIVERS, bare=0.0)
+            sel.append(q)
+            sexp[q["id"]] = dict(pexp[p["id"]], id=q["id"])
+            chk.add("api_pages_one_instance_many_renders", 1 if reuse else 0)
+        if sel:
+            run_batch(chk, sel, sexp, f"mc-elems-api-{sel[0]['mode']}")
+            chk.add("mc_pages_replayed_through_python_api", len(sel))
+    # (2) the random programs again, eligible nodes through the API (django mode: some without a context = `only`)
+    va = [api_variant(p, 3 * 10 ** 6 + p["id"], rnd) for p in progs if not exp[p["id"]]["zone"] and api_nodes(p["page"])]
+    # (3) caller sessions: the same class rendered 2-3 times by one kept instance / one view
+    va += session_programs(rnd, n_sessions, 5 * 10 ** 6)
+    vexp = djc.oracle(va)
+    st = run_batch(chk, va, vexp, "rand-api")
+    chk.add("traces_validated_against_impl", len(va) - st["zone"])
+    chk.add("python_api_programs", len(va) - st["zone"])
+    nodes = [n for p in va for n in api_nodes(p["page"])]
+    chk.cov["python_api_renders_by_entry_point"] = {d: sum(1 for n in nodes if n.get("via") == d) for d in API_DRIVERS}
+    chk.cov["python_api_renders_without_context_django"] = sum(1 for p in va if p["mode"] == "django"
+                                                               for n in api_nodes(p["page"]) if n["only"])
+    s0 = va[-1]
+    chk.sample({"python_api_session": djc.brief(s0)["page"], "mode": s0["mode"],
+                "entry_points": [[n["c"], n["via"], n["only"]] for n in api_nodes(s0["page"])],
+                "expected_marks": vexp[s0["id"]]["marks"]}, limit=4)
+    return djc.oracle.last_states
+
+
+def body(chk: Check, *, mc_nodes: int, n_random: int, deep: int, chains_w: List[int], chains_r: List[int],
+         chains_wl: List[int] = (), chains_rl: List[int] = (), n_sessions: int = 0, mc_every: int = 4) -> None:
     states = trans = 0
+    mc = []
     for mode in P.MODES:
         progs, exp, r = djc.mc_programs("elems", mode, mc_nodes)
         states += r.distinct
@@ -234,15 +488,19 @@ def body(chk: Check, *, mc_nodes: int, n_random: int, deep: int, chains_w: List[
         mid = progs[len(progs) // 2]
         chk.sample({"mc_page": djc.brief(mid)["page"], "mode": mode, "expected_elems": exp[mid["id"]]["elems"],
                     "expected_marks": exp[mid["id"]]["marks"]}, limit=2)
+        mc.append((progs, exp))
     rnd = random.Random(chk.seed * 1000003 + 14)
     g = P.Gen(rnd, depth=deep, width=3, collide=False, elems=True, required=0.0, isf=False)
     progs = [g.program(i + 1, P.MODES[i % 2]) for i in range(n_random)]
     exp = djc.oracle(progs)
+    states += djc.oracle.last_states
     st = run_batch(chk, progs, exp, "rand-elems")
     chk.add("traces_validated_against_impl", len(progs) - st["zone"])
     chk.sample({"random_program": djc.brief(progs[0]), "expected_elems": exp[progs[0]["id"]]["elems"],
                 "expected_marks": exp[progs[0]["id"]]["marks"]}, limit=3)
-    deep_chains(chk, chains_w, chains_r)
+    states += api_entry_points(chk, mc, progs, exp, n_sessions=n_sessions, mc_every=mc_every)
+    del mc
+    deep_chains(chk, chains_w, chains_r, chains_wl, chains_rl)
     chk.add("states", states + djc.oracle.last_states)
     chk.add("transitions", trans)
 
@@ -252,15 +510,21 @@ def run(tier: str) -> int:
     boot.setup()
     chk = Check(PID, tier, "model_checking")
     if tier == "quick":
-        body(chk, mc_nodes=3, n_random=1200, deep=3, chains_w=[60, 400, 1100], chains_r=[40, 120])
+        body(chk, mc_nodes=3, n_random=1200, deep=3, chains_w=[60, 400, 1100], chains_r=[40, 120],
+             chains_wl=[1100, 1100], chains_rl=[120], n_sessions=400, mc_every=4)
     else:
-        body(chk, mc_nodes=3, n_random=8000, deep=4, chains_w=[500, 2000], chains_r=[150, 300])
+        body(chk, mc_nodes=3, n_random=8000, deep=4, chains_w=[500, 2000], chains_r=[150, 300],
+             chains_wl=[2000, 2000], chains_rl=[300], n_sessions=3000, mc_every=1)
     chk.cov["exhaustive"] = True
     chk.cov["rule"] = ("TLC enumerates every page with <= N nodes over the 'elems' alphabet (elements, loops, components with "
                        "0..n roots, text-only, component-as-root, roots from fills/defaults/loops) x2 modes; random programs with "
-                       "elements anywhere; deep chains. Non-trivial = renders >= 1 component instance.")
+                       "elements anywhere; the page-level renders of enumerated / random / caller-session programs requested "
+                       "through the Python API (one kept instance per class: render, render_to_response, as_view; fresh "
+                       "instances) and pasted into the page; deep chains, also with every level inside a loop. "
+                       "Non-trivial = renders >= 1 component instance.")
     chk.assumptions += ["elements are well-formed lower-case non-void tags with quoted attributes (the Rust HTML pass is trusted)",
-                        "instances are matched to real render ids through the Component.id echo printed first by every template"]
+                        "instances are matched to real render ids through the Component.id echo printed first by every template",
+                        "Python-API renders are requested at page level only (not while another component is being rendered)"]
     return chk.finish()
 
 
@@ -271,7 +535,58 @@ def selftest(tier: str) -> int:
     boot.setup()
     allp = djc.standard_probes()
     probes = [(n, allp[n]) for n in ['root-attrs-not-passed-to-children', 'fills-named-b-dropped']]
-    return run_probes(PID, probes, lambda chk: body(chk, mc_nodes=2, n_random=200, deep=3, chains_w=[20], chains_r=[10]))
+    probes += [("render-id-generated-once-per-component-instance", _probe_id_per_instance),
+               ("forloop-state-copied-recursively", _probe_recursive_forloop_copy)]
+    return run_probes(PID, probes, lambda chk: body(chk, mc_nodes=2, n_random=200, deep=3, chains_w=[20], chains_r=[10],
+                                                    chains_wl=[1100], chains_rl=[10], n_sessions=60, mc_every=4))
+
+
+def _patched(obj, name, new):
+    from contextlib import contextmanager
+
+    @contextmanager
+    def cm():
+        old = getattr(obj, name)
+        setattr(obj, name, new)
+        try:
+            yield
+        finally:
+            setattr(obj, name, old)
+    return cm()
+
+
+def _probe_id_per_instance():
+    """The render id is generated on the first render of a Component INSTANCE and re-used by its later renders
+    (the tag creates an instance per render, so every tag-only page still passes)."""
+    import sys
+    import django_components.component as dcomp
+    orig = dcomp.gen_id
+
+    def gen_id(*a, **k):
+        f = sys._getframe(1)
+        me = f.f_locals.get("self")
+        if f.f_code.co_name != "_render_impl" or me is None:
+            return orig(*a, **k)
+        if getattr(me, "_vf_rid", None) is None:
+            me._vf_rid = orig(*a, **k)
+        return me._vf_rid
+    return _patched(dcomp, "gen_id", gen_id)
+
+
+def _probe_recursive_forloop_copy():
+    """snapshot_context walks the forloop.parentloop chain recursively (one Python frame per enclosing loop)."""
+    import django_components.component as dcomp
+    orig = dcomp.snapshot_context
+
+    def walk(fl):
+        return 1 + walk(fl["parentloop"]) if isinstance(fl, dict) and fl.get("parentloop") else 0
+
+    def snapshot_context(context):
+        for d in context.dicts:
+            if "forloop" in d:
+                walk(d["forloop"])
+        return orig(context)
+    return _patched(dcomp, "snapshot_context", snapshot_context)
 
 
 def replay(path: str) -> int:
@@ -279,8 +594,9 @@ def replay(path: str) -> int:
     boot.setup()
     d = json.load(open(path))
     if d["case"].get("label") == "deep-chain":
-        p = chain_program(d["case"]["depth"], d["case"]["as_root"], d["case"]["mode"])
-        m = compare(p, chain_expected(d["case"]["depth"], d["case"]["as_root"]), observe(p))
+        lp = bool(d["case"].get("loop"))
+        p = chain_program(d["case"]["depth"], d["case"]["as_root"], d["case"]["mode"], lp)
+        m = compare(p, chain_expected(d["case"]["depth"], d["case"]["as_root"], lp), observe(p))
     else:
         p = d["case"]["json"]
         m = compare(p, djc.oracle([p])[p["id"]], observe(p))
